@@ -13,12 +13,12 @@ CHECKS = {
  "C03": dict(cat="translation_validation", tech="per-program validation: JIT event trace vs canonical BF.v; 11-register bytecode validated through BC.v",
    text="BaseJitCompiler is executed on generated programs (incl. register-pressure programs with >=12 live values and 64-bit constant chains) and must produce the canonical event sequence; the bytecode it compiles (translate(..,11,false)) is validated through BC.v.",
    note="Machine code is executed on the CPU; the instruction-selection table proof of DESIGN §4 C03 is not yet part of this check.", ref="§4 C03"),
- "C04": dict(cat="translation_validation", tech="Inplace.v machine model + canonical BF.v; correspondence model<->InplaceInterpreter (proof of the simulation in progress)",
-   text="The in-place interpreter (debug and release) is compared with the canonical semantics and with the Coq model of its pc/loop-stack machine (Inplace.v) on generated programs, four widths.",
-   note="Until Props/C04.v lands this is validation of the implementation against the Coq semantics, not a proof.", ref="§4 C04"),
- "C05": dict(cat="translation_validation", tech="state-repeat divergence certificates computed and re-checked by the extracted Coq machine; backends observed in child processes",
-   text="Programs are classified by the extracted canonical machine: halting, or divergent with a state-repeat certificate re-validated by the Coq function cert_ok. Certified-divergent programs must not return from any backend/level within the window and their streamed events must be a prefix of the certified periodic word; halting programs must return with the canonical events.",
-   note="Non-return is observed through a wall-clock window.", ref="§4 C05"),
+ "C04": dict(cat="proof", tech="Coq simulation proof: in-place pc/loop-stack machine (Inplace.v) <-> canonical machine; correspondence Inplace.v <-> InplaceInterpreter",
+   text="Theorem C04_inplace_canonical (all widths, environments incl. I/O faults, balanced sources): the in-place machine halts (normally or stopped) iff the canonical machine does, with identical tape, pointer and complete event log; C04_inplace_prefix: its partial traces are canonical partial traces (divergence preserved); the forward scan stops after the matching bracket; every step is defined on any byte string. Inplace.v is tied to src/exec/inplace.rs on every run: traces of the extracted model and of InplaceInterpreter (debug+release) on generated programs, plus canonical comparison.",
+   note="Inplace.v is hand-written (pc represented as the remaining suffix); Memory refinement is C09; usize pc / Vec growth unbounded in the model.", ref="§4 C04"),
+ "C05": dict(cat="translation_validation", tech="Coq theorem: state-repeat certificate => canonical run never halts; certificates computed and re-checked by the extracted machine; backends observed in child processes",
+   text="Theorem C05_state_repeat_diverges: if cert_ok accepts (i,d) the canonical machine is still running after any number of steps (equivalent configurations stay equivalent, C05_equiv_runs). Programs are classified by the extracted machine (halting / certified divergent); certified-divergent programs must not return from any backend/level within the window and their streamed events must be a prefix of the certified periodic word; halting programs must return with the canonical events. In-place divergence preservation is also theorem C04_inplace_prefix.",
+   note="Backend non-return is observed through a wall-clock window; optimiser/bytecode layers are validated per program.", ref="§4 C05"),
  "C06": dict(cat="exploration", tech="guard-page allocator runs of all backends on roaming programs; index discipline proved on Tape.v (C09_raw_in_bounds)",
    text="While an executor runs, every heap allocation is placed flush against PROT_NONE pages (left-flush and right-flush runs, debug and release); roaming programs (moves of thousands of cells, scans, revisits) must not fault and must produce the canonical events. The model-level statement (no raw index outside [0,size), refinement of the unbounded tape) is theorem C09_raw_in_bounds/C09_tape_refines for the Memory API; BCRaw.v (one-sided probes) is not built yet.",
    note="Observation of the implementation under an adversarial allocator; not a proof about Rust pointer arithmetic or machine code.", ref="§4 C06"),
@@ -46,9 +46,9 @@ CHECKS = {
  "C11": dict(cat="translation_validation", tech="extracted Coq checker BCWf.bc_wf run on every bytecode the current build generates or holds",
    text="Every bytecode produced by translate(..,2,true)/(..,11,false) at levels 0-3 and the copy each executor holds is checked by the Coq-defined executable checker bc_wf (branch targets, operand window containing 0, temp indices, must-define dataflow to a fixpoint, liveness vs live bits of non-branch instructions, MemZero aliasing rules, fusion flag). A rejected program is the replay.",
    note="The checker is defined in Coq and extracted; its soundness theorem (wf_safe) is not proved yet, so this is per-program validation by a Coq-defined checker, not a certified one. bc.rs is not modelled.", ref="§4 C11"),
- "C12": dict(cat="exploration", tech="Parse.v exact model of Program::parse: structural IR equality and error kind/position vs the property's spec; comment-insensitivity pairs; executors' acceptance",
-   text="Random Unicode strings (all planes), comment interleavings, depth-500 nesting and one-edit unbalancings: Program::parse must accept iff balanced with the specified error kind/char position, produce exactly the IR of the Coq model Parse.v, be insensitive to non-command characters, and every executor must accept/reject/behave accordingly without panicking.",
-   note="Theorems parse_accepts_iff / parse_error_spec not proved yet; until then exploration with a Coq-defined executable model.", ref="§4 C12"),
+ "C12": dict(cat="proof", tech="Coq proofs on Parse.v (exact model of Program::parse): accepts iff balanced, error kind/char position = bracket-stack spec, comment-insensitivity; structural correspondence",
+   text="Theorems for every width and every string of scalar values: parse accepts iff balanced; the reported (kind, character index) equals the bracket-stack specification (first unmatched ']' else innermost unclosed '['); filtering non-command characters changes neither acceptance, error kind nor the IR; bytes >= 0x80 are never commands. Parse.v is tied on every run: random Unicode strings, comment interleavings, depth-500 nesting, one-edit unbalancings must give exactly the model's IR / error; all executors' acceptance and comment-insensitivity are exercised, panics caught.",
+   note="Parse.v hand-written; recursion depth of later stages is only exercised (depth <= 500).", ref="§4 C12"),
  "C13": dict(cat="other", tech="Coq theorem: every operand shape left by (modelled) parameter reordering is covered by both selectors; determinism/reuse/compile-time monitored",
    text="Partial. Proved: jit_covers_all / int_covers_all over Forms.v (no unimplemented! arm reachable after reordering), tied by compiling every normalised shape in both selectors and by checking generated bytecode is a fixed point of the model's reordering. Monitored only: hash-seed/history independence of printed IR, bytecode and machine code (within a process, across processes, across profiles), executor reuse on fresh contexts, caught panics in create() (nesting depth 300), compile time on size-doubling families.",
    note="Determinism, reuse and growth are observations of the running process; only the unimplemented!-unreachability slice is a theorem.", ref="§4 C13"),
